@@ -14,8 +14,11 @@ import (
 func caseInput(c M) string {
 	if a := list(c["inp"]); a != nil {
 		var b strings.Builder
-		for _, x := range a {
-			b.WriteString(str(x))
+		for i, x := range a {
+			if str(x) == "{EUR}" { // placeholder of Gen_c05b for a three-byte character; the judge reads the character
+				a[i] = "€"
+			}
+			b.WriteString(str(a[i]))
 		}
 		return b.String()
 	}
@@ -210,6 +213,67 @@ func c05Lex(text string, keepEv bool) M {
 	return o
 }
 
+// c05Padded: a short input with one letter marked {PAD} (spec/c05/Gen_c05b.tla).  The short input (pad = "a") is scanned
+// and recorded like any other input; for every pad length k the input with a run of k letters in place of the marked one
+// is scanned as well and recorded compactly (kinds, positions, extents, literal lengths).  Nothing is compared here.
+func c05Padded(c M, pads []interface{}) M {
+	in := list(c["inp"])
+	build := func(pad string) string {
+		var b strings.Builder
+		for _, x := range in {
+			switch str(x) {
+			case "{PAD}":
+				b.WriteString(pad)
+			case "{EUR}":
+				b.WriteString("€")
+			default:
+				b.WriteString(str(x))
+			}
+		}
+		return b.String()
+	}
+	short := build("a")
+	o := c05Lex(short, false)
+	c["inp"] = runeStrings(short)
+	compact := func(x M) M {
+		out := M{}
+		ts := []interface{}{}
+		for _, t := range list(x["toks"]) {
+			tm := obj(t)
+			ts = append(ts, M{"tok": tm["tok"], "line": tm["line"], "char": tm["char"], "s": tm["s"], "e": tm["e"],
+				"n": utf8.RuneCountInString(str(tm["lit"]))})
+		}
+		out["toks"] = ts
+		if a, ok := x["after"]; ok {
+			out["after"] = a
+		}
+		for _, k := range []string{"panic", "budget"} {
+			if v, ok := x[k]; ok {
+				out[k] = v
+			}
+		}
+		out["maxn"] = x["maxn"]
+		return out
+	}
+	longs := []interface{}{}
+	letters := "abcdefghijklmnopqrstuvwxyz"
+	for _, p := range pads {
+		k := num(p)
+		if k < 1 {
+			continue
+		}
+		var b strings.Builder
+		for i := 0; i < k; i++ {
+			b.WriteByte(letters[i%26])
+		}
+		l := compact(c05Lex(build(b.String()), false))
+		l["k"] = k
+		longs = append(longs, l)
+	}
+	o["longs"] = longs
+	return o
+}
+
 // runeStrings splits text into 1-rune strings the way bufio.ReadRune delivers them
 // (every invalid byte is one U+FFFD).
 func runeStrings(text string) []interface{} {
@@ -234,6 +298,9 @@ var c05Snippets = []string{
 
 func init() {
 	register("c05", &Suite{Serial: true, Run: func(c M) M {
+		if pads := list(c["pads"]); pads != nil {
+			return c05Padded(c, pads)
+		}
 		text := caseInput(c)
 		if list(c["inp"]) == nil {
 			c["inp"] = runeStrings(text)
